@@ -132,6 +132,77 @@ theorem run_iteration_is_lbfgs [Dcsrch.DcOps K] (u : User K ε) (c : Cfg K) (e a
       (fresh_dinv u c a hck hS hU hT hg hbox hx0 hgl i0 s0 hi0 hp0) hr)
     hbox hn he hfl hnb
 
+/-! ### the same with the condition "no bound interferes" stated on the data of the state (non-empty memory) -/
+
+/-- the unconstrained Cauchy step `gᵀg / gᵀBg` of a loop state, `B` the BFGS matrix of its stored pairs -/
+noncomputable def cauchyStepLen (s : St K) : K :=
+  (vec s.x.length s.g ⬝ᵥ vec s.x.length s.g) /
+    (vec s.x.length s.g ⬝ᵥ (C10.bfgsChain ((thetaOf s.X s.G) • (1 : Matrix (Fin s.x.length) (Fin s.x.length) K))
+      (pairsOf s.x.length (diffs s.X) (diffs s.G)) *ᵥ vec s.x.length s.g))
+
+/-- no bound interferes, as a condition on the state's data: the segment from `x` to a little beyond the unconstrained Cauchy step lies in
+the box, strictly at the step itself, and the quasi-Newton point is feasible -/
+def NoBoundData (c : Cfg K) (s : St K) : Prop :=
+  (∃ T, cauchyStepLen s < T ∧ InBoxF c.lb c.ub (vsub s.x (smul T s.g))) ∧
+  StrictIn c.lb c.ub (vsub s.x (smul (cauchyStepLen s) s.g)) ∧
+  ∀ r : Fin s.x.length, vec s.x.length c.lb r ≤ quasiNewtonPoint s r ∧ quasiNewtonPoint s r ≤ vec s.x.length c.ub r
+
+/-- **C12 (state level, data only)** for a state with at least one stored pair and a non-zero gradient -/
+theorem state_is_lbfgs_data [Dcsrch.DcOps K] (u : User K ε) (c : Cfg K) (e : K) (s : St K) (hi : DInvS u c s)
+    (hbx : BoxOk c.lb c.ub) (hn : 0 < c.lb.length) (he : 0 ≤ c.epsSY) (hX : s.X.length > 1) (hg : vec s.x.length s.g ≠ 0)
+    (hfl : FloorOK c e s) (hnb : NoBoundData c s) :
+    vec s.x.length ((concreteOracles c.lb c.ub e).xbar s.x s.g s.mats) = quasiNewtonPoint s := by
+  have hfit : fitTo s.x s.g = s.g := fitTo_eq s.x s.g hi.glen
+  have hbox : InBoxF c.lb c.ub s.x := by
+    apply inBoxF_of_inBox
+    rw [← hi.inbox]
+    exact clip_inBox hbx s.x hi.xlen
+  obtain ⟨⟨T, hT, hTbox⟩, hstrict, hN⟩ := hnb
+  show vec s.x.length (xbarModel c.lb c.ub e s.x s.g s.mats) = quasiNewtonPoint s
+  unfold quasiNewtonPoint at hN ⊢
+  unfold cauchyStepLen at hT hstrict
+  rw [hi.mats]
+  simp only [if_pos hX] at hN ⊢
+  have hall := curv_hyps_of_chain s.x.length c.epsSY he s.X s.G hi.hlen hi.lenX hi.lenG hi.chain
+  have hdl : (diffs s.X).length = s.X.length - 1 := diffs_length s.X
+  have hdg : (diffs s.G).length = s.X.length - 1 := by rw [diffs_length s.G, hi.hlen]
+  have hpos : 0 < (diffs s.X).length := by omega
+  have hθ : 0 < thetaOf s.X s.G := by
+    unfold thetaOf
+    rw [getLast?_getD (diffs s.X) hpos, getLast?_getD (diffs s.G) (by omega)]
+    simp only
+    obtain ⟨hs, hy, -, h1, h2⟩ := hall ((diffs s.X).length - 1) (by omega)
+    rw [hdg, ← hdl]
+    rw [dot_vec s.x.length _ _ hy hy, dot_vec s.x.length _ _ hs hy]
+    exact div_pos h2 h1
+  have := complete_iteration_is_lbfgs_data c.lb c.ub e s.x s.g s.X s.G hX hi.hlen (by rw [hi.xlen]; exact hn)
+    (fun j hj => (hall j hj).1) (fun j hj => (hall j hj).2.1) (fun j hj => ⟨(hall j hj).2.2.1, (hall j hj).2.2.2.1⟩) hθ hbox
+    (by
+      intro dd hne hpat
+      rw [hfit] at hpat
+      have := hfl dd hne hpat
+      rw [if_pos hX, hi.mats, if_pos hX] at this
+      exact this)
+    (by rw [hfit]; exact hg) T (by rw [hfit]; exact hT) (by rw [hfit]; exact hTbox) (by rw [hfit]; exact hstrict)
+    (by rw [hfit]; exact hN)
+  rw [hfit] at this
+  exact this
+
+open C06 in
+/-- **C12 (run level, data only)** at every loop-head state with stored pairs a fresh run of the complete model reaches -/
+theorem run_iteration_is_lbfgs_data [Dcsrch.DcOps K] (u : User K ε) (c : Cfg K) (e a : K)
+    (hck : c.checkpoint = none) (hS : c.hasScaler = false) (hU : c.hasUpdate = false) (hT : c.ftarget = none)
+    (hg : c.gtol = .const a) (hm : 1 ≤ c.maxcor) (hbox : BoxOk c.lb c.ub) (hx0 : c.x0.length = c.lb.length)
+    (hn : 0 < c.lb.length) (he : 0 ≤ c.epsSY) (hgl : GradLen u c)
+    (i0 : Init K) (s0 s : St K) (hi0 : initEval u c = .ok i0) (hp0 : prepare u c i0 = .ok s0)
+    (hr : Reach u (concreteOracles c.lb c.ub e) c s0 s)
+    (hX : s.X.length > 1) (hgne : vec s.x.length s.g ≠ 0) (hfl : FloorOK c e s) (hnb : NoBoundData c s) :
+    vec s.x.length ((concreteOracles c.lb c.ub e).xbar s.x s.g s.mats) = quasiNewtonPoint s :=
+  state_is_lbfgs_data u c e s
+    (reach_dinv u _ c hU hm hbox hgl (xbarLen_concrete c e hbox) s0 s
+      (fresh_dinv u c a hck hS hU hT hg hbox hx0 hgl i0 s0 hi0 hp0) hr)
+    hbox hn he hX hgne hfl hnb
+
 /-! ### Boolean reflections, to exhibit the hypotheses on a concrete state -/
 
 def inBoxB : Vec K → Vec K → Vec K → Bool
